@@ -44,7 +44,7 @@ CHECKS = {
  "C16": ("exploration", "TLA+ enclosures of sin / cos (reduction with an enclosure of pi/2) + TLC trace validation",
          "Absolute/relative floors of sin, cos, the tan bound cross-multiplied by cos^2, sin_cos == (sin, cos) through the memo, exact points, invalid arguments." + LEGA),
  "C17": ("exploration", "monotone inversion through the sin / cos enclosures at r +- tolerance (exact end points) + TLC trace validation",
-         "asin, acos, atan, atan2 floors, branch conventions on the axes (bit-identical to the correctly rounded pi, pi/2), domain errors."),
+         "asin, acos, atan, atan2 floors, branch conventions on the axes (bit-identical to the correctly rounded pi, pi/2), domain errors." + LEGA),
  "C18": ("exploration", "enclosures of exp; monotone inversion for the inverse functions + TLC trace validation",
          "sinh, cosh, tanh, asinh, acosh, atanh floors with (x, -x) pairs at every magnitude, exact points, domain errors, panic-freedom."),
  "C20": ("model_checking", "TLA+ contracts: tokeniser over the logged character sequence + the deserialisation acceptance automaton (well-formed and NoOverlapDef) ; TLC trace validation of the format matrix and of every input shape",
